@@ -41,7 +41,13 @@ enum YieldKind { Y_CALL = 0, Y_TOKEN = 1, Y_LIBC = 2 };
 extern void (*g_yield_hook)(int kind);
 extern __thread int g_in_library;       // >0 while a library call is on this thread's stack
 extern __thread struct PSession *g_cur_session;
-extern __thread std::string *g_capture;  // sink of the calling task for text the library prints
+extern __thread std::string *g_capture;
+#include <atomic>
+extern std::atomic<uint64_t> g_gate_hits;        // allocator gate (yield build): allocator calls made while inside the library
+extern std::atomic<uint64_t> g_libc_yield_points;
+extern __thread const char *g_gate_last;
+extern const bool g_yield_build;
+//  // sink of the calling task for text the library prints
 
 // exact-size media blocks
 struct Block {
